@@ -149,17 +149,24 @@ pub fn gen_grid(rng: &mut Rng, ct: u8, depth: u8, w: u32, h: u32) -> (Grid, GenI
         }
         // alpha classes
         if matches!(ct, 4 | 6) {
-            let ac = rng.below(5);
+            // (5, 6: 16-bit only - all-or-nothing alpha with one value on a byte boundary, where a test that looks at
+            // one of the two alpha bytes goes wrong: 0x0001, 0x00FF, 0x0100, 0xFF00, 0xFFFE, ...)
+            let ac = rng.below(if depth == 16 { 7 } else { 5 });
             let amax = max as u16;
             for p in pool.iter_mut() {
                 let a = match ac {
                     0 => amax,
-                    1 => *rng.choose(&[0, amax]),
+                    1 | 5 | 6 => *rng.choose(&[0, amax]),
                     2 => 0,
                     3 => *rng.choose(&[0, amax, amax, amax / 2]),
                     _ => p[c - 1],
                 };
                 p[c - 1] = if hilo && ac == 4 { (a & 0xFF) * 257 } else { a };
+            }
+            if ac >= 5 && !pool.is_empty() {
+                let k = rng.below(pool.len() as u64) as usize;
+                let nn = rng.range(1, 254) as u16;
+                pool[k][c - 1] = *rng.choose(&[0x0001u16, 0x00FF, 0x0100, 0xFF00, 0xFFFE, 0x8000, 0x00FE, nn, nn << 8, 0xFF00 | nn, (nn << 8) | 0xFF]);
             }
             class.push_str(&format!("alpha{} ", ac));
         }
